@@ -2,19 +2,15 @@
 (* Behaviour generator for stage B (spec -> implementation replay) at the object level: carries the history of
    observations and prints every behaviour that is complete (Depth steps, or nothing left to do) as JSON.
    Exhaustive mode enumerates every path (hist is part of the state); -simulate samples long ones.
-   Order breaks the symmetry between connection ids (c2 only starts once c1 has). *)
+   CONSTRAINT Canon (Accounting.tla) breaks the symmetry between ids. *)
 EXTENDS Accounting, Json
 CONSTANTS Depth
-Order == <<"c1", "c2", "c3", "k1", "k2">>
 VARIABLE hist
 GenInit == Init /\ hist = <<>>
 GenNext == /\ Len(hist) < Depth
            /\ NextObj
            /\ hist' = Append(hist, obs')
 GenSpec == GenInit /\ [][GenNext]_<<vars, hist>>
-Canon == \A i \in 1..(Len(Order) - 1) :
-           /\ (Order[i] \in Conns /\ Order[i + 1] \in Conns) => (conn[Order[i + 1]].st # "idle" => conn[Order[i]].st # "idle")
-           /\ (Order[i] \in Kons /\ Order[i + 1] \in Kons) => (kst[Order[i + 1]].st # "idle" => kst[Order[i]].st # "idle")
 Complete == Len(hist) = Depth \/ ~ENABLED NextObj
 Emit == ~Complete \/ PrintT(ToJson(hist))
 =============================================================================
